@@ -136,7 +136,7 @@ def render(doc: Doc) -> str:
 
 class DocGen:
     def __init__(self, seed: int, *, comments=True, wrappers=True, max_lets=3, attrpaths=True, nested=True, quoted=True, inherits=True, refs=False,
-                 nested_families=True, with_ident_env=True, lets_anywhere=True, let_before_call=True, trailing_comments=True, after_in_trivia=True):
+                 nested_families=True, with_ident_env=True, lets_anywhere=True, let_before_call=True, trailing_comments=True, after_in_trivia=True, mixed_roots=True):
         self.r = random.Random(seed)
         self.comments = comments
         self.wrappers = wrappers
@@ -152,6 +152,7 @@ class DocGen:
         self.let_before_call = let_before_call
         self.trailing_comments = trailing_comments
         self.after_in_trivia = after_in_trivia
+        self.mixed_roots = mixed_roots
         self.n = 0
         self._depth0 = True
 
@@ -296,6 +297,11 @@ class DocGen:
         core = self.set_node(2)
         if wrappers and wrappers[-1][0] == "call" and wrappers[-1][1].endswith(" rec"):
             core.rec = False
+        if self.mixed_roots and self.attrpaths and r.random() < 0.08:
+            # valid but unusual: a root defined by an explicit set *and* by an attrpath binding (`a = { … }; a.zq = 2;`)
+            roots = [it for it in core.items if it.kind == "bind" and len(it.path) == 1 and isinstance(it.value, SetNode) and not it.quoted[0] and not it.value.rec and all(x.kind != "bind" or x.path[0] != "zq" for x in it.value.items)]
+            if roots:
+                core.items.append(Item("bind", (r.choice(roots).path[0], "zq"), (False, False), "2"))
         header = []
         if self.comments and r.random() < 0.2:
             header = [self.comment()]
